@@ -167,7 +167,7 @@ def _cfg(mc, mt, mb, emit):
 
 def run(ctx):
     ctx.assumptions += ['tag-based build detector, message-substring predicate; commit times 2 days apart (inside the 30-day '
-                        'window); branch names release/1.9, release/1.10, release/2.0, master; merges have <= 2 parents',
+                        'window); branch names release/1.9, release/1.10, release/1.10.1, master; merges have <= 2 parents',
                         'the report relation demands only what the statement says: any ancestry-minimal build may list a commit']
     ctx.tlc('ghist/GHistCases.tla', _cfg(3, 2, 2, False) + 'INVARIANT Satisfiable\n', workers=16, timeout=3000)
     r = ctx.tlc('ghist/GHistCases.tla', _cfg(3 if ctx.quick else 4, 2, 3 if ctx.quick else 2, True), workers=16, timeout=7200, heap='16g')
